@@ -7,9 +7,12 @@ Nothing is parsed from source text.  From the live classes of the current workin
 * attribute-kind table: for populated instances of those classes (with and without landmarks, 2-D and 3-D)
   every instance attribute with the kind of its runtime value.
 
+* write table (measured by harness.c02.measure_writes on live objects, passed in): which instance attributes
+  ``_transform_inplace`` rebinds on each object of the private copy, per class.
+
 Written to lean/MenpoModel/Generated/C02Dispatch.lean; lean/MenpoModel/GenProps/C02.lean states the
-obligations (`decide`) that tie them to `MenpoModel.C02.expectedDispatch` and `kindsWF`, over which the
-Core model is assembled and the theorems are proved.
+obligations (`decide`) that tie them to `MenpoModel.C02.expectedDispatch`, `kindsWF` and `inplaceWrites`, over
+which the Core model is assembled and the theorems are proved.
 """
 
 METHODS = ["_transform_inplace", "_transform_self_inplace", "_transform", "copy"]
@@ -194,25 +197,72 @@ def kind_rows():
     return rows
 
 
-def lean_files():
+TSUPS = {"Transform": "menpo.transform.base", "Homogeneous": "menpo.transform.homogeneous.base",
+         "Affine": "menpo.transform.homogeneous.affine", "TransformChain": "menpo.transform.base.composable",
+         "WithDims": "menpo.transform", "ThinPlateSplines": "menpo.transform.thinplatesplines",
+         "AbstractPWA": "menpo.transform.piecewiseaffine.base"}
+
+
+def _tsup(k):
+    if k is None:
+        return ".absent"
+    if k.__name__ in TSUPS and k.__module__ == TSUPS[k.__name__]:
+        return "." + k.__name__
+    if k.__module__ == "menpo.transform.rbf":
+        return ".RBF"
+    return ".unknown"
+
+
+def apply_rows():
+    """[(transform class name, supplier of _apply, of _apply_batched, of apply)] for every concrete Transform
+    subclass exported by menpo.transform"""
+    import menpo.transform as mt
+    from menpo.transform.base import Transform
+    out = []
+    for n in sorted(dir(mt)):
+        c = getattr(mt, n)
+        if isinstance(c, type) and issubclass(c, Transform) and c is not Transform and not n.startswith("_"):
+            if getattr(c, "__abstractmethods__", None):
+                continue
+            out.append((n, supplier(c, "_apply"), supplier(c, "_apply_batched"), supplier(c, "apply")))
+    return out
+
+
+def lean_files(measured=None):
+    """`measured` = (writes rows [(class name, [attribute])], other writes [text]) from harness.c02.measure_writes"""
     rows = dispatch_rows()
     body = ["  ⟨%s, %s⟩" % (_cls(n), ", ".join(_sup(s) for s in sups)) for n, sups in rows]
     comment = "\n".join("--   %s: %s" % (n, ", ".join("%s<-%s" % (m, (s.__module__ + "." + s.__name__) if s else None)
                                                         for m, s in zip(METHODS, sups))) for n, sups in rows)
     krows = kind_rows()
     kbody = ["  ⟨%s, [%s]⟩" % (_cls(n), ", ".join('("%s", .%s)' % (a, k) for a, k in attrs)) for n, attrs in krows]
+    wrows, others = measured if measured is not None else ([], ["not measured"])
+    wbody = ["  (%s, [%s])" % (_cls(n), ", ".join('"%s"' % a for a in attrs)) for n, attrs in wrows]
+    obody = ['  "%s"' % o.replace('"', "'") for o in others]
     gen = ("/- REGENERATED by harness/extract_c02.py from the live classes of the menpo working tree on every run\n"
            "   of `./check C02`; do not edit.  dispatch columns: " + ", ".join(METHODS) + " -/\n"
-           "import MenpoModel.Core.C02\n\n"
+           "import MenpoModel.Core.C02Deep\nimport MenpoModel.Core.C02Batch\n\n"
            "namespace MenpoModel.C02.Generated\nopen MenpoModel.C02\n\n"
            "def dispatch : Dispatch := [\n" + ",\n".join(body) + " ]\n\n" + comment + "\n\n"
            "/-- instance attributes of populated objects (each class with and without landmarks, 2-D and 3-D) -/\n"
            "def attrKinds : List KRow := [\n" + ",\n".join(kbody) + " ]\n\n"
+           "/-- MEASURED on live objects: for every object of the private copy of a shape of each of the 8 classes\n"
+           "(root, landmark manager, groups at depth 1 and 2; 2-D and 3-D; every transform class; with and without\n"
+           "batch_size) the instance attributes whose binding differs after `_transform_inplace` -/\n"
+           "def measuredWrites : WritesTable := [\n" + ",\n".join(wbody) + " ]\n\n"
+           "/-- MEASURED: array buffers written in place, dict items rebound, attributes of the transform written,\n"
+           "classes rebinding different attributes under different transforms (must be empty) -/\n"
+           "def otherWrites : List String := [" + ("\n" + ",\n".join(obody) + " " if obody else "") + "]\n\n"
+           "/-- which class supplies `_apply`, `_apply_batched` and the public `apply` of every concrete transform class of\nmenpo.transform -/\n"
+           "def applyTable : List TRow := [\n" +
+           ",\n".join('  ⟨"%s", %s, %s, %s⟩' % (n, _tsup(a), _tsup(b), _tsup(e)) for n, a, b, e in apply_rows()) + " ]\n\n"
            "end MenpoModel.C02.Generated\n")
     props = ("/- Obligations over the regenerated tables (written by harness/extract_c02.py; the text is constant, the\n"
              "   tables it speaks about are not).  `dispatch_ok` is what makes every theorem of Props/C02.lean, proved\n"
              "   over `expectedDispatch`, a statement about the current class hierarchy; `attrKinds_ok` is what makes\n"
-             "   the heap layout assumed by `Rep` the layout of the live objects. -/\n"
+             "   the heap layout assumed by `Rep` the layout of the live objects; `writes_ok` is what makes the frame of\n"
+             "   the heap model (the in-place pass rebinds `points` of shape objects and nothing else) the behaviour of\n"
+             "   the live methods. -/\n"
              "import MenpoModel.Generated.C02Dispatch\n\n"
              "namespace MenpoModel.C02.GenProps\nopen MenpoModel.C02\n\n"
              "/-- the 8 shape classes, LandmarkManager and Image resolve `_transform_inplace`, `_transform_self_inplace`,\n"
@@ -224,9 +274,21 @@ def lean_files():
              "theorem attrKinds_ok : kindsWF Generated.dispatch Generated.attrKinds = true := by decide\n\n"
              "/-- every class of the table was observed -/\n"
              "theorem attrKinds_cover : kindsCover Generated.dispatch Generated.attrKinds = true := by decide\n\n"
+             "/-- the attributes the live `_transform_inplace` rebinds on each object of the private copy are exactly\n"
+             "those the heap model rebinds (`inplaceWrites`, `inplace_writes_in_table`) -/\n"
+             "theorem writes_ok : writesAgree Generated.dispatch Generated.measuredWrites = true := by decide\n\n"
+             "/-- every transformable class of the table was measured -/\n"
+             "theorem writes_cover : writesCover Generated.dispatch Generated.measuredWrites = true := by decide\n\n"
+             "/-- no array buffer written in place, no dict item rebound, the transform untouched -/\n"
+             "theorem no_other_writes : Generated.otherWrites = [] := by decide\n\n"
+             "/-- every concrete transform class resolves `apply` to `Transform.apply` (transcribed as `applyT`) and\n"
+             "`_apply` / `_apply_batched` to the implementation the model\n"
+             "transcribes for it (`homApply`, `affineApply`, `chainFn`, `withDims`, `applyBatched`) or treats as a contract\n"
+             "parameter; no transform class has appeared or disappeared -/\n"
+             "theorem applyTable_ok : Generated.applyTable = expectedApplyTable := by decide\n\n"
              "end MenpoModel.C02.GenProps\n")
     return {"MenpoModel/Generated/C02Dispatch.lean": gen, "MenpoModel/GenProps/C02.lean": props}
 
 
 TARGETS = ["MenpoModel.Generated.C02Dispatch", "MenpoModel.GenProps.C02"]
-N_OBLIGATIONS = 3
+N_OBLIGATIONS = 7
